@@ -580,7 +580,9 @@ pub fn run(ctx: &Ctx) {
     small_bodies(ctx);
     noise_differential(ctx);
     golden_block(ctx);
-    cli_conformance(ctx);
+    if !crate::lib_only() {
+        cli_conformance(ctx);
+    }
     ctx.require("cli decrypts a specification-made password file", 6);
     ctx.require("specification decrypts a tool-made password file", 6);
     ctx.require("cli unlocks a specification-locked key", 6);
